@@ -2,7 +2,7 @@
     [compress_frame] is the model of FrameCompressor::compress (coq/model/FrameEnc.v) with the encoder of one
     compressed block as a parameter; the decoder is the model used for C01-C11. *)
 Require Import Zrs.lib.RsPrelude Zrs.gen.Generated Zrs.model.Headers Zrs.model.BlockDec Zrs.model.FrameDec Zrs.model.FrameEnc.
-Require Import Zrs.proofs.C15_Frame Zrs.proofs.C02_Roundtrip.
+Require Import Zrs.proofs.C15_Frame Zrs.proofs.C02_Roundtrip Zrs.proofs.C02_Fastest.
 Open Scope Z_scope.
 
 (** level Uncompressed: every input, every fragmentation of the source reads, every block size up to 128 KiB, every
@@ -55,6 +55,32 @@ Proof. exact rle_content. Qed.
 Theorem C02_run_detection_is_exact : forall l, all_same l = true -> l = repeat_z (nth 0 l 0) (length l).
 Proof. exact all_same_repeat. Qed.
 
+(** level Fastest: the same conclusion for every block-level encoder that meets four obligations, stated with a
+    relation [Rel] between the encoder state and the decoder state it assumes: (1) an emitted compressed block decodes
+    to its input and keeps the states related, (2) a run sent as an RLE block keeps them related, (3) a block whose
+    compressed form is discarded for a raw block keeps them related (the obligation finding F5 violated), (4) the
+    per-frame reset relates to a new decoder.  These are hypotheses about compress_block, which is not modelled; each
+    run validates them on the emitted frames. *)
+Theorem C02_fastest_roundtrip_given_block_encoder : forall (cstate : Type) cblock cskip cfallback (Rel : cstate -> scratch -> Prop),
+  (forall cs sc blk body cs', Rel cs sc -> cblock cs blk = (body, cs') -> all_same blk = false ->
+     (length body < length blk)%nat -> Z.of_nat (length body) <= MAX_BLOCK_SIZE ->
+     exists sc', decompress_block (Z.of_nat (length body)) sc body = ROk sc' /\ sc_content sc' = sc_content sc ++ blk /\ Rel cs' sc') ->
+  (forall cs sc blk, Rel cs sc -> all_same blk = true -> Rel (cskip cs blk) (sc_push_raw sc blk)) ->
+  (forall cs sc blk body cs', Rel cs sc -> cblock cs blk = (body, cs') -> Rel (cfallback cs') (sc_push_raw sc blk)) ->
+  forall creset, (forall cs w, Rel (creset cs) (scratch_new w)) ->
+  forall slice wsize hash32 cs data script frame cs' r',
+  1 <= Z.of_nat slice <= 131072 -> 1 <= wsize <= 2 ^ 27 ->
+  (forall h x, hash32 = Some h -> length (h x) = 4%nat) ->
+  compress_frame cstate cblock cskip cfallback creset LFastest slice wsize hash32 cs
+    {| rd_data := data; rd_script := script |} = ROk (frame, cs', r') ->
+  exists d1 rest evs s1 d2 s2,
+    fdec_reset fdec_new frame = ROk (d1, rest, evs) /\ fd_state d1 = Some s1 /\
+    fdec_decode_blocks d1 rest SAll = ROk (d2, [], true) /\ fd_state d2 = Some s2 /\
+    buf_content s2 = data /\
+    fr_checksum s2 = match hash32 with Some h => Some (le_val (h data)) | None => None end.
+Proof. exact fastest_roundtrip. Qed.
+
+Print Assumptions C02_fastest_roundtrip_given_block_encoder.
 Print Assumptions C02_uncompressed_roundtrip.
 Print Assumptions C02_blocks_independent_of_fragmentation.
 Print Assumptions C02_frame_is_header_then_blocks.
